@@ -178,10 +178,21 @@ def rand_args(rnd, kind):
     return []
 
 
-def rand_op_case(rnd, kind, reply_mode="valid"):
+def rand_args_accepted(rnd, kind):
+    """arguments inside every encoder's accepted domain (for the properties that are about replies, not about arguments)"""
+    if kind == 1: return [rnd.random() < .5, rnd.choice([0, 1, 15, 90, rnd.randrange(1, 10 ** 6)])]
+    if kind == 2: return [rnd.randrange(3600, 86400), rnd.choice([0, 0, 1, 999999])]
+    if kind == 3: return ["".join(rnd.choice("abcXYZ 019_-") for _ in range(rnd.randrange(2, 33))).strip() or "ab"]
+    if kind == 6: return ["%02d:%02d" % (rnd.randrange(24), rnd.randrange(60)), "%02d:%02d" % (rnd.randrange(24), rnd.randrange(60)),
+                          sorted(rnd.sample(range(7), rnd.randrange(0, 8))), "set"]
+    return rand_args(rnd, kind)
+
+
+def rand_op_case(rnd, kind, reply_mode="valid", accepted_args=False):
     now = rnd.choice([rnd.randrange(1_600_000_000, 2_000_000_000), rnd.randrange(1, 2 ** 32)])
     login = login_reply(rnd)
-    args = rand_args(rnd, kind)
+    args = rand_args_accepted(rnd, kind) if accepted_args else rand_args(rnd, kind)
+    if accepted_args and kind == 3 and len(args[0]) < 2: args = ["ab"]
     if kind in STATE_KINDS: second = state_reply_for(rnd, kind)
     elif kind == 4: second = schedules_reply(rnd, now)
     else: second = rnd.choice([b"\x01", rand_bytes(rnd, 20), rand_bytes(rnd, rnd.randrange(1, 60))])
